@@ -81,7 +81,8 @@ class World:
                       methods=[Method("otake_" + t, [Param(T[t], "v")], T["int"], [Ret(I(0))]) for t in SINK_T] +
                               [Method("hole3", [], T["int"], self.body("m_other"))])
         util = Class("Util", static=True, fields=[Field(T["int"], "k", I(1), static=True)],
-                     methods=[Method("uf", [], T["int"], [Ret(I(1))], static=True), Method("uhole", [], T["int"], self.body("s_util"), static=True)])
+                     methods=[Method("uf", [], T["int"], [Ret(I(1))], static=True), Method("uv", [], VOID, [], static=True),
+                              Method("uhole", [], T["int"], self.body("s_util"), static=True)])
         shape = Class("Shape", abstract=True, ctors=[Ctor([], [], default=True)],
                       methods=[dict(Method("area", [], T["int"], [], virtual=True), abstract_body=True)])
         mid = Class("Mid", base="Shape", ctors=[Ctor([], [Super()])], methods=[Method("name", [], T["int"], [Ret(I(1))])])
@@ -153,6 +154,9 @@ def expr_probes():
     add("void_bare_method", MCall(This(), "vm", bare=True), "int", "void", INST)
     add("void_fn_as_obj", Call("fv"), "Base", "void")
     add("void_fn_bool", Call("fv"), "bool", "void")
+    add("void_static_method", SCall("Util", "uv"), "int", "void")
+    add("void_super_method", SuperCall("vm"), "int", "void", INST)
+    add("void_chain", MCall(Call("mkb"), "vm"), "int", "void")
     add("int_fn", Call("fi"), "int", "ok")
     # ---- null
     add("null_int", Null(), "int", "null")
@@ -557,6 +561,48 @@ def declarations():
         w = World()
         w.base_fields.append(Field(VOID, "vf", static=static))
         out.append(case("decl:void_field:%s" % static, "void", w, "void field"))
+    # constructors reached through super(...) / implicitly / by new, per visibility
+    for vis in ("public", "protected", "private"):
+        for how in ("explicit_super", "implicit_super", "new_outside", "new_in_derived", "new_in_own_static"):
+            w = World()
+            pb = Class("PB", fields=[Field(INT, "z", I(0))], ctors=[Ctor([], [], vis=vis)],
+                       methods=[Method("mk", [], C("PB"), [Ret(New("PB"))], static=True)] if how == "new_in_own_static" else [])
+            w.classes.append(pb)
+            if how in ("explicit_super", "implicit_super"):
+                w.classes.append(Class("PD", base="PB", ctors=[Ctor([], [Super()] if how == "explicit_super" else [])]))
+            elif how == "new_outside":
+                w.fill("main", [Decl(C("PB"), "x", New("PB"))], with_pre=False)
+            elif how == "new_in_derived":
+                w.classes.append(Class("PD", base="PB", ctors=[Ctor([], [Super()])] if vis != "private" else [Ctor([Param(INT, "q")], [Super()])],
+                                       methods=[Method("mk2", [], C("PB"), [Ret(New("PB"))])]))
+            out.append(case("decl:ctor_access:%s:%s" % (vis, how), "access", w, "%s constructor reached by %s" % (vis, how)))
+    # a zero-argument base constructor is required when super(...) is omitted
+    for base_ctors, nm in (([Ctor([Param(INT, "a")], [])], "only_int"), ([Ctor([Param(INT, "a")], []), Ctor([], [])], "both")):
+        for explicit in (False, True):
+            w = World()
+            w.classes.append(Class("PB", fields=[Field(INT, "z", I(0))], ctors=copy.deepcopy(base_ctors)))
+            w.classes.append(Class("PD", base="PB", ctors=[Ctor([], [Super(I(1))] if explicit else [])]))
+            out.append(case("decl:implicit_super:%s:%s" % (nm, explicit), "access", w, "base constructors %s, derived %s super(1)" % (nm, "with" if explicit else "without")))
+    # super(...) arguments are a sink like any other
+    for sname, src in sources():
+        if used_names(src) & LOCALS:
+            continue
+        for t in SINK_T:
+            w = World()
+            w.classes.append(Class("SK", base="K_" + t, ctors=[Ctor([], [Super(copy.deepcopy(src))])]))
+            out.append(case("decl:super_arg:%s:%s" % (t, sname), "type", w, "super(%s) into a base constructor taking %s" % (sname, t)))
+    # global names are declared once
+    for kind in ("fn", "fn_sig", "class", "fn_vs_world"):
+        w = World()
+        if kind == "fn":
+            w.funcs += [Func("dupf", [], INT, [Ret(I(1))]), Func("dupf", [], INT, [Ret(I(2))])]
+        elif kind == "fn_sig":
+            w.funcs += [Func("dupf", [], INT, [Ret(I(1))]), Func("dupf", [Param(INT, "a")], INT, [Ret(I(2))])]
+        elif kind == "class":
+            w.classes += [Class("DupC", ctors=[Ctor([], [], default=True)]), Class("DupC", ctors=[Ctor([], [], default=True)])]
+        else:
+            w.funcs += [Func("fi", [], INT, [Ret(I(3))])]
+        out.append(case("decl:duplicate:%s" % kind, "scope", w, "duplicate %s declaration" % kind))
     # final locals without initialiser; duplicate parameters
     for hole in ("main", "m_base", "s_base"):
         for sh in ("plain", "if_then", "block"):
